@@ -40,7 +40,9 @@ ASSUMPTIONS = [
 
 
 def envs(tier):
-	return [dict(preload=['gompsim.so'], env={'OMP_WAIT_POLICY': 'PASSIVE', 'GOMP_SPINCOUNT': '0', 'OMP_DYNAMIC': 'FALSE'})]
+	base = {'OMP_WAIT_POLICY': 'PASSIVE', 'GOMP_SPINCOUNT': '0', 'OMP_DYNAMIC': 'FALSE'}
+	# every fourth run under `python -O`: results must not depend on assert statements being executed
+	return [dict(preload=['gompsim.so'], env=base)] * 3 + [dict(preload=['gompsim.so'], env=dict(base, PYTHONOPTIMIZE='1'))]
 
 
 class SigCache:
@@ -59,16 +61,26 @@ class SigCache:
 		return self.cache[key]
 
 
-def write_sigfile(ctx, pool, idxs, kspec, name, int_ids=False):
+def write_sigfile(ctx, pool, idxs, kspec, name, int_ids=False, id_style=0, big_endian=False):
 	from gambit.sigs.base import SignatureArray, AnnotatedSignatures, SignaturesMeta, dump_signatures
 	from gambit.sigs.calc import calc_signature
 	sigs = [np.asarray(calc_signature(kspec, pool.genomes[g]['contigs'])) for g in idxs]
 	if int_ids:
-		ids = np.array([500 + 11 * j for j in range(len(idxs))], dtype=np.int64)
+		ids = np.array([0 + 11 * j for j in range(len(idxs))], dtype=np.int64)
 	else:
-		ids = np.array([f'id:{pool.genomes[g]["stem"]}#{j}' for j, g in enumerate(idxs)], dtype=object)
+		# stored ids are labels as they stand - also when they look like paths or file names
+		styles = [lambda g, j: f'id:{pool.genomes[g]["stem"]}#{j}', lambda g, j: f'run{j % 2}/{pool.genomes[g]["stem"]}.fasta',
+		          lambda g, j: f'{pool.genomes[g]["stem"]}.fa.gz', lambda g, j: f'/abs/dir{j}/{pool.genomes[g]["stem"]}']
+		ids = np.array([styles[id_style % len(styles)](g, j) for j, g in enumerate(idxs)], dtype=object)
 	path = os.path.join(ctx.scratch, name)
 	dump_signatures(path, AnnotatedSignatures(SignatureArray(sigs, kspec, dtype=kspec.index_dtype), ids, SignaturesMeta(id=name)))
+	if big_endian and kspec.index_dtype.itemsize > 1:
+		# the same file with its values stored big-endian (legal HDF5, e.g. written on another platform)
+		import h5py
+		with h5py.File(path, 'r+') as f:
+			vals = f['values'][:]
+			del f['values']
+			f.create_dataset('values', data=vals.astype(vals.dtype.newbyteorder('>')))
 	return path, [str(x) for x in ids.tolist()]
 
 
@@ -80,8 +92,10 @@ def draw_side(ctx, ch, L, pool, kspec, side, c, allow=('files', 'list', 'sig')):
 	npool = len(pool.genomes)
 	idxs = [ch.int(0, npool - 1, f'{L}.{side}{i}') for i in range(n)]
 	if channel == 'sig':
-		path, ids = write_sigfile(ctx, pool, idxs, kspec, f'{side}-{c}.gs', int_ids=ch.flip(0.2, f'{L}.{side}intids'))
-		return dict(channel='sig', args=[opt[3], path], labels=ids, genomes=idxs, files=[], sig_kspec=kspec)
+		be = ch.flip(0.08, f'{L}.{side}bigendian')
+		path, ids = write_sigfile(ctx, pool, idxs, kspec, f'{side}-{c}.gs', int_ids=ch.flip(0.2, f'{L}.{side}intids'),
+		                          id_style=ch.int(0, 3, f'{L}.{side}idstyle'), big_endian=be)
+		return dict(channel='sig', args=[opt[3], path], labels=ids, genomes=idxs, files=[], sig_kspec=kspec, foreign_byte_order=be)
 	forms = [ch.pick(['plain', 'gz', 'plain', 'gz', 'alias', 'link'], f'{L}.{side}f{i}') for i in range(n)]
 	paths = [pool.genomes[g][f] or pool.genomes[g]['plain'] for g, f in zip(idxs, forms)]
 	if channel == 'files':
@@ -217,6 +231,10 @@ def scenario(ctx):
 			continue
 		if h.fault_fired:
 			ctx.probe('command_succeeded_under_fault')
+		if res.status != 0 and (q.get('foreign_byte_order') or (r and r.get('foreign_byte_order'))):
+			# a signature file in the other byte order may be refused loudly; it may never give a wrong table
+			ctx.probe('foreign_byte_order_refused')
+			continue
 		if res.status != 0:
 			ctx.violation('C16.status', f'{desc}: exit status {res.status} ({type(res.exc).__name__ if res.exc else "-"})', detail=f'{res.exc!r} {res.stderr[-400:]}')
 		qsigs = [cache.get(g, eff) for g in q['genomes']]
@@ -255,7 +273,9 @@ def scenario(ctx):
 				ctx.stats['executions'] += 1
 				text2 = open(out2).read() if os.path.exists(out2) else ''
 				ctx.log('twin', status=res2.status, out=blob_hash(text2))
-				if res2.status != 0 or list(csv.reader(text2.splitlines())) != rows:
+				if res2.status != 0 and q.get('foreign_byte_order'):
+					ctx.probe('foreign_byte_order_refused')      # the twin has cells to compute and may refuse the file loudly
+				elif res2.status != 0 or list(csv.reader(text2.splitlines())) != rows:
 					ctx.violation('C16.square', f'{desc}: --square output differs from supplying the same genomes as queries and references',
 					              detail=f'status {res2.status}\n{text[:300]}\n---\n{text2[:300]}')
 				ctx.probe('square_twin_compared')
